@@ -7,6 +7,8 @@
 // cases.json: {"cases":[Case,...]}            (see type Case)
 // outdir/trace.ndjson: line 1 {"ev":"config",...}; per case a history
 //
+// (the tree also holds default_metrics.yaml, the gateway's built-in default metrics file: never part of a payload, not backed up)
+//
 //	{"ev":"reset","case":id,"endpoint":..,"method":..,"disk":{path:tag},"tree":sha,"payload":{path:tag},"decodable":b,"b64ok":b}
 //	{"ev":"probe","ph":"req|resp","txn":k,"served":{flowpath:tag}}   probe transactions through the ACTIVE engine
 //	{"ev":"call"}                                                    handler invoked
@@ -194,6 +196,11 @@ func content(rel, tag string) []byte {
 			return []byte("allowed_domains: [a, b\n  - : :\n\t}")
 		}
 		return []byte("# gateway config " + tag + "\nallowed_domains: []\nblocked_domains: []\n")
+	case rel == "default_metrics.yaml": // the gateway's built-in default metrics file (read when the user's file is absent)
+		if tag == "d1" {
+			return append([]byte("# built-in default metrics config\n"), metricsBase...)
+		}
+		return content("metrics.yaml", tag) // a pushed metrics config that landed here
 	case rel == "metrics.yaml":
 		if tag == "mbad" {
 			return []byte("general_metrics: [unclosed\n\t}: x")
@@ -207,7 +214,7 @@ func content(rel, tag string) []byte {
 	return []byte(tag)
 }
 
-var allTags = []string{"v1", "v2", "v3", "bad", "junk", "g1", "g2", "gbad", "m1", "m2", "mbad", "q1", "q2", "p1", "p2"}
+var allTags = []string{"d1", "v1", "v2", "v3", "bad", "junk", "g1", "g2", "gbad", "m1", "m2", "mbad", "q1", "q2", "p1", "p2"}
 
 // ---------------------------------------------------------------- executor state
 
@@ -277,6 +284,12 @@ func (x *exec) writeDisk(disk map[string]string) {
 	}
 	os.Remove(x.abs("gateway_config.yaml"))
 	os.Remove(x.abs("metrics.yaml"))
+	os.Remove(x.abs("default_metrics.yaml"))
+	if _, ok := disk["default_metrics.yaml"]; !ok {
+		if err := os.WriteFile(x.abs("default_metrics.yaml"), content("default_metrics.yaml", "d1"), 0o644); err != nil {
+			vh.Die("write default metrics: %v", err)
+		}
+	}
 	for rel, tag := range disk {
 		if tag == "none" {
 			continue
@@ -648,7 +661,7 @@ func main() {
 			"REMEDY_STATE_LOCATION":              filepath.Join(outdir, "remedy.json"),
 			"LOG_LEVEL":                          "panic",
 			"VERIF_C08_METRICS_SRC":              filepath.Join(repo, "proxy/metrics.yaml"),
-			"LUNAR_PROXY_METRICS_CONFIG_DEFAULT": filepath.Join(repo, "proxy/metrics.yaml"),
+			"LUNAR_PROXY_METRICS_CONFIG_DEFAULT": filepath.Join(root, "default_metrics.yaml"),
 		}
 		for k, v := range env {
 			os.Setenv(k, v)
@@ -701,7 +714,7 @@ func main() {
 
 	x.tr.Add(vh.Ev{"ev": "config", "flows": flowFiles, "cat": map[string]int{
 		"flows/a.yaml": 1, "flows/b.yaml": 1, "flows/c.yaml": 1, "quotas/q.yaml": 2, "path_params/p.yaml": 3,
-		"gateway_config.yaml": 4, "metrics.yaml": 5}})
+		"gateway_config.yaml": 4, "metrics.yaml": 5, "default_metrics.yaml": 6}})
 	t1 := time.Now()
 	for _, c := range sc.Cases {
 		x.runCase(c)
